@@ -765,7 +765,9 @@ func (x *Exec) poolObjects(v Value) []*Object {
 		add(bv.P.Obj)
 	case Ptr:
 		add(bv.Obj)
-		if bv.Obj != nil {
+		// a pooled *[]byte / *string also hands over the backing array its header points to;
+		// larger structs (linked instruction objects ...) are pooled one by one
+		if bv.Obj != nil && bv.Obj.Size <= 24 {
 			for _, c := range bv.Obj.Cells {
 				if q, ok := c.v.(Ptr); ok && q.Obj != nil && q.Obj != bv.Obj {
 					add(q.Obj)
